@@ -199,4 +199,7 @@ def run(repo, tier):
     res.floor('MIRROR', 5)
     res.floor('T-AXIS', 25)
     res.floor('loops-examined', 30)
+    from .common import run_label_eq
+    if run_label_eq(repo, res, {'photutils.segmentation.core', 'photutils.segmentation.catalog'}) < 3:
+        raise AnalysisError('vanished anchor: per-label loops over (label, slices)')
     return res
